@@ -78,9 +78,23 @@ def c02(prog, obs, impl):
 def c03(prog, obs, impl):
     fails = []
     subs = prog['subs']
+    declared = {}       # plate name -> capacity per well (uL) as declared when the plate was made
+    for op in prog['ops']:
+        if op['op'] == 'newp':
+            declared.setdefault(f"p{op['name']}", set()).add(dsl.qty_val(op['max']) * 10**6)     # twins share a name
     for i, op, o, dumps in walk(prog, obs):
         if o['ok']:
             for v, d in o['out']:
+                if d.get('t') == 'p' and d.get('name') in declared:
+                    caps = declared[d['name']]
+                    cap = min(caps, key=lambda x: abs(x - (d['wells'][0]['max'] or 0)))
+                    for j, c in enumerate(d['wells']):
+                        if c['max'] is None or abs(c['max'] - cap) > cap * F(1, 10**9):
+                            fails.append((i, f"well {j} of plate {d['name']} reports a capacity of {None if c['max'] is None else float(c['max'])!r} uL, the plate was made with {float(cap)!r} uL per well"))
+                            break
+                        if c['vol'] > cap * (1 + F(1, 10**9)) + F(1, 10**9):
+                            fails.append((i, f"well {j} of plate {d['name']} holds {float(c['vol'])!r} uL, the plate was made with {float(cap)!r} uL per well"))
+                            break
                 for c in containers_of(d):
                     for s, a in c['cont'].items():
                         if a < 0:
@@ -212,6 +226,32 @@ def c10(prog, obs, impl):
                         e = amount_in(sd, c['cont'].get(sid, F(0)), 'L') * 10**6
                         if abs(F(float(x)) - e) > F(1, 2) + F(1, 10**6):
                             fails.append((i, f"Plate.get_volumes(substance {sid}) reports {x} uL, contents give {float(e)!r}"))
+                # the same observers through slices of the plate (a row, a column, a block, a list of wells)
+                nr, nc = obj.n_rows, obj.n_columns
+                regions = [{'rect': [[0], list(range(nc))]}, {'rect': [list(range(nr)), [nc - 1]]},
+                           {'rect': [list(range(min(2, nr))), list(range(nc - min(2, nc), nc))]},
+                           {'list': [[nr - 1, 0], [0, nc - 1]] if (nr, nc) != (1, 1) else [[0, 0]]}]
+                for r in regions:
+                    cells = dsl.region_cells(r, nc)
+                    sl = obj[dsl.py_selector(r)]
+                    wells = [ds[a * nc + b] for a, b in cells]
+                    exp = {s for c in wells for s in c['cont']}
+                    got = {impl.bykey.get((s.name, s.specific_activity, s.mol_weight, s.density), impl.byname[s.name]) for s in sl.get_substances()}
+                    if got != exp:
+                        fails.append((i, f"get_substances of slice {dsl.py_selector(r)} reports substances {sorted(got)}, its wells hold {sorted(exp)}"))
+                    vs = sl.get_volumes(unit='uL')
+                    for c, x in zip(wells, numpy.asarray(vs).flatten()):
+                        if abs(F(float(x)) - c['vol']) > F(1, 2) + F(1, 10**6):
+                            fails.append((i, f"get_volumes of slice {dsl.py_selector(r)} reports {x} uL for a well holding {float(c['vol'])!r} uL"))
+                    for sid in sorted(exp)[:2]:
+                        sd = [s for s in subs if s['id'] == sid][0]
+                        if sd['kind'] == 'Enzyme':
+                            continue
+                        mol = sl.get_moles(impl.subs[sid], unit='umol')
+                        for c, x in zip(wells, numpy.asarray(mol).flatten()):
+                            e = c['cont'].get(sid, F(0))
+                            if abs(F(float(x)) - e) > F(6, 100):
+                                fails.append((i, f"get_moles of slice {dsl.py_selector(r)} reports {x} umol of substance {sid}, well holds {float(e)!r}"))
     return fails
 
 
